@@ -1,4 +1,5 @@
 pub mod bep42;
+pub mod storage;
 pub mod tid;
 pub mod token;
 
@@ -7,6 +8,7 @@ use crate::Engine;
 pub fn make(name: &str) -> Option<Box<dyn Engine>> {
     match name {
         "bep42" => Some(Box::new(bep42::Bep42::default())),
+        "storage" => Some(Box::new(storage::StorageEngine::default())),
         "tid" => Some(Box::new(tid::Tid::default())),
         "token" => Some(Box::new(token::TokenEngine::default())),
         _ => None,
